@@ -68,6 +68,7 @@ def gen_frame(rng, n_pre=None, cooldown=None, cost_kind=None, spike=False):
   noise = rng.choice([0.5, 2.0, 6.0])
   lift = rng.uniform(0, 30)
   rows = []
+  cancel = [rng.randint(2, 9) for _ in range(T)]
   wc = [rng.uniform(0.5, 2) for _ in range(n_c)]
   wt = [rng.uniform(0.5, 2) for _ in range(n_t)]
   for d in range(T):
@@ -78,6 +79,11 @@ def gen_frame(rng, n_pre=None, cooldown=None, cost_kind=None, spike=False):
       cost = rng.uniform(1, 5) if cost_kind == 'variable' else 0.0
       if cost_kind == 'fixed_cool' and period[d] == 2:
         cost = rng.uniform(1, 5)       # control spend after the test period: still the fixed-cost scenario
+      if cost_kind == 'cancel_pre' and period[d] == 0:
+        cost = float(cancel[d])        # offset by the first treatment geo's booking below: the costs are not zero, their sum is
+      if cost_kind == 'cancel_ctl_test':
+        pre_sum = float(sum(cancel[i] for i in range(T) if period[i] == 0))
+        cost = float(cancel[d] * n_test) if period[d] == 0 else (-pre_sum if period[d] == 1 else 0.0)   # pre-period spend, refunded during the test
       rows.append([f'c{g}', d, 1, period[d], v, cost])
     for g in range(n_t):
       v = yt * wt[g] / sum(wt)
@@ -85,6 +91,10 @@ def gen_frame(rng, n_pre=None, cooldown=None, cost_kind=None, spike=False):
         cost = rng.uniform(1, 5) + (rng.uniform(20, 60) if period[d] == 1 else 0.0)
       elif cost_kind == 'variable_trt_pre':      # only the treatment geos spend before the test
         cost = (rng.uniform(1, 5) if period[d] == 0 else 0.0) + (rng.uniform(20, 60) if period[d] == 1 else 0.0)
+      elif cost_kind == 'cancel_pre':
+        cost = (-float(cancel[d]) * n_c if (period[d] == 0 and g == 0) else 0.0) + (rng.uniform(20, 60) if period[d] == 1 else 0.0)
+      elif cost_kind == 'cancel_ctl_test':
+        cost = rng.uniform(20, 60) if period[d] == 1 else 0.0
       elif cost_kind == 'fixed_negative':        # spend reduction recorded as negative incremental cost
         cost = -rng.uniform(20, 60) if period[d] == 1 else 0.0
       else:
@@ -108,7 +118,19 @@ def to_df(fr, rows=None):
   if fr.get('int_values') and all(float(r[4]).is_integer() and float(r[5]).is_integer() for r in rows):
     df['response'] = df['response'].astype('int64')
     df['cost'] = df['cost'].astype('int64')
-  return df.set_index('geo')
+  df = df.set_index('geo')
+  if fr.get('names'):       # caller-chosen column names, passed to fit() as key_* (see fit_kwargs)
+    df = df.rename(columns=fr['names'])
+    df.index.name = fr['names'].get('geo', 'geo')
+  return df
+
+
+CUSTOM_NAMES = {'date': 'day', 'group': 'arm', 'period': 'phase', 'response': 'sales', 'cost': 'spend', 'geo': 'market'}
+
+
+def fit_kwargs(fr):
+  n = fr.get('names') or {}
+  return {'key_' + k: v for k, v in n.items()}
 
 
 def totals(fr, col=4, rows=None):
@@ -144,7 +166,8 @@ def series(fr, use_cooldown=True, col=4, rows=None):
 def real_tbr(fr, target='response', use_cooldown=True, rows=None):
   from matched_markets.methodology import tbr
   m = tbr.TBR(use_cooldown=use_cooldown)
-  m.fit(to_df(fr, rows), target)
+  kw = fit_kwargs(fr)
+  m.fit(to_df(fr, rows), kw.get('key_' + target, target), **kw)
   return m
 
 
